@@ -233,11 +233,19 @@ for _i in range(len(FIELDS)):
             budget={"quick": 120, "thorough": 300},
             what="constructor keywords: exactly the supplied fields are user-defined with the supplied values, all "
                  "others hold fresh defaults; two configurations evaluate a callable default separately")
-def ctor_keywords(k_i: bool, k_lst: bool, k_sub: bool, x: int) -> bool:
+def ctor_keywords(k_i: bool, k_lst: bool, k_sub: bool, x: int, k_none: bool) -> bool:
     """
     pre: 0 <= x <= 1000
     post: _
     """
+    if k_none:
+        # an explicit None is an assignment like any other: value None, user-defined
+        schema = _schema(Counter())
+        cfg = schema(i=None, s=None)
+        hold("ctor", cfg.i is None and is_value_defined(cfg, "i"), "keyword i=None was not applied")
+        hold("ctor", cfg.s is None and is_value_defined(cfg, "s"), "keyword s=None was not applied")
+        hold("ctor", cfg.lst == [1, 2] and not is_value_defined(cfg, "lst"), "unsupplied field changed")
+        return True
     counter = Counter()
     schema = _schema(counter)
     kw = {}
